@@ -85,7 +85,7 @@ func (s *Sc) pendingOf(ctxID string, prov sdk.AccAddress) []string {
 	var out []string
 	for _, id := range s.r.pre.PendingIDs() {
 		r := s.r.pre.Requests[id]
-		if hexs(r.RequestContextId) == ctxID && (prov == nil || prov.Equals(r.Provider)) {
+		if (ctxID == "" || hexs(r.RequestContextId) == ctxID) && (prov == nil || prov.Equals(r.Provider)) {
 			out = append(out, id)
 		}
 	}
@@ -534,6 +534,9 @@ func runPrice(a *App, mon *Mon, seed int64, c priceCase) {
 	p1 := s.A.SignProv[0]
 	s.define("svc")
 	s.bind("svc", p1, s.A.Owners[0], 100000, pricing, 1)
+	// pricing texts the schema must refuse: a "discount" that is not below one
+	pbad := s.A.SignProv[1]
+	s.bind("svc", pbad, s.A.Owners[1], 100000, fmt.Sprintf(`{"price":"%s%s","promotions_by_volume":[{"volume":1,"discount":"%s"}]}`, c.Base, denom, []string{"10.5", "20.25", "1.0", "100.000001"}[int(c.VolAt)%4]), 1)
 	op, err := ParsePricingText(pricing)
 	if err != nil {
 		s.done()
@@ -560,7 +563,12 @@ func runPrice(a *App, mon *Mon, seed int64, c priceCase) {
 	// one request per block (timeout 1, frequency 1), answered in the next block: volume
 	// grows by one per block while the block time walks through the windows
 	id := s.call("svc", []sdk.AccAddress{p1}, cons, cap, 1, false, true, 1, 9)
+	// another consumer asks only the provider whose binding must not exist: every batch is skipped
+	s.call("svc", []sdk.AccAddress{pbad}, s.A.Consumers[1], 100000, 1, false, true, 1, 5)
 	for b := 0; b < 11; b++ {
+		for _, rid := range s.pendingOf("", pbad) {
+			s.respond(rid, pbad, 0)
+		}
 		for _, rid := range s.pendingOf(id, p1) {
 			kind := 0
 			if b == 3 {
